@@ -62,11 +62,18 @@ def obj_valid(frame):
     return frame.bit
 
 
+def np_valid(frame):
+    """a validator whose verdict is a numpy bool, like AudioEnergyValidator's"""
+    import numpy as np
+
+    return np.bool_(frame.bit)
+
+
 def make_stream(pat, kind):
     """-> (frames, validator, source).  frames[i] is what position i holds."""
-    if kind == "obj":
+    if kind in ("obj", "np"):
         frames = [Frame(i, c == "1") for i, c in enumerate(pat)]
-        return frames, obj_valid, ListSource(frames)
+        return frames, (obj_valid if kind == "obj" else np_valid), ListSource(frames)
     if kind == "char":
         frames = ["A" if c == "1" else "a" for c in pat]
         return frames, UpperValidator(), StringDataSource("".join(frames))
@@ -77,7 +84,7 @@ def make_stream(pat, kind):
 
 
 def frame_valid(frame, kind):
-    if kind == "obj":
+    if kind in ("obj", "np"):
         return frame.bit
     if kind == "char":
         return frame.isupper()
